@@ -160,6 +160,33 @@ Spec == Init /\ [][Next]_vars
 Lattice(n) == {{}} \cup {{i} : i \in 1..n} \cup {(1..n) \ {i} : i \in 1..n} \cup {1..n}
 LatticePlan(n, S, c) == [i \in 1..n |-> IF i \in S THEN <<c>> ELSE Absent]
 
+(* --- list-valued fields ------------------------------------------------------- *)
+\* A list-valued field (data-form multi values and options, disco features/identities/items, roster
+\* items, stanza ids, stream-feature mechanisms, bookmarks, trust-message keys, MUC status codes, ...)
+\* is a SEQUENCE of members, each written as an element or attribute of its own.  The writer/reader
+\* pair is the identity on the sequence: order and multiplicity are part of the value (text-multi
+\* lines may repeat).  The value lattice the driver walks through for every such field, a and b
+\* being distinct member strings of the plan's character class:
+ListShapes == {"empty", "one", "two", "dup", "aba", "case", "space", "emptymember"}
+ListOf(shape, a, b, aCase, aSpace1, aSpace2) ==
+    CASE shape = "empty" -> <<>>
+      [] shape = "one"   -> <<a>>
+      [] shape = "two"   -> <<a, b>>
+      [] shape = "dup"   -> <<a, a>>              \* two EQUAL members
+      [] shape = "aba"   -> <<a, b, a>>           \* equal but not adjacent
+      [] shape = "case"  -> <<a, aCase>>          \* differing in case only
+      [] shape = "space" -> <<aSpace1, aSpace2>>  \* differing in inner white space only
+      [] shape = "emptymember" -> <<a, Absent>>   \* an empty-string member
+WriteList(l, ctx) == [i \in 1..Len(l) |-> Escape(l[i], ctx)]
+ReadList(w, ctx)  == [i \in 1..Len(w) |-> Unescape(w[i], ctx)]
+\* checked by TLC for every shape and every pair of one-character members (ListContract below);
+\* fields the library documents as SETS (roster groups: QSet; message reactions: XEP-0444 "set of
+\* reactions") are compared as sets by the driver and named in docs/C01.md
+ListContract ==
+    \A sh \in ListShapes : \A ca \in Classes : \A cb \in Classes \ {ca} : \A ctx \in {"attr", "text"} :
+        LET l == ListOf(sh, <<ca>>, <<cb>>, <<ca, "Plain">>, <<ca, "InnerSpace", "Plain">>, <<ca, "InnerSpace", "InnerSpace", "Plain">>)
+        IN ReadList(WriteList(l, ctx), ctx) = l
+
 (* --- properties (C01) ------------------------------------------------------ *)
 \* written over observable quantities so that CodecTrace evaluates the same
 \* predicates on what the implementation reported
